@@ -269,7 +269,18 @@ def addressable(m, ref):
 # the oracle on one instance
 
 
-def check_instance(run, v, lib, m, mode, stats):
+def line_end_variants(lines):
+    """The same segment lines written with other line ends.  parse_segments strips every CR-separated piece
+    BEFORE it takes the segment name and skips the pieces that are blank, so LF after CR, blank lines, a
+    trailing CR LF and blanks around a line must not change the group tree (Properties/C08.v
+    C08_crlf_same_forest, C08_blank_padding_same_forest, C08_trailing_blank_same_forest)."""
+    return [('crlf', '\r\n'.join(lines)),
+            ('crlf-trailing', '\r\n'.join(lines) + '\r\n'),
+            ('blank-lines', '\r \r'.join(lines) + '\r\r\n\r'),
+            ('padded', '\r'.join([lines[0]] + [' ' + l + ' \t' for l in lines[1:]]))]
+
+
+def check_instance(run, v, lib, m, mode, stats, all_variants=False):
     """Returns the names-level correspondence case (or None)."""
     ref = lib.MESSAGES[m]
     forest = instance(ref, mode)
@@ -346,6 +357,21 @@ def check_instance(run, v, lib, m, mode, stats):
     # (e) determinism
     if impl_tree(mg2) != got or mg2.to_er7() != eg:
         run.fail('not-deterministic', 'parsing the same text twice gives different group trees', names=names, **ident)
+    # (f) line ends: the same lines with CR LF / blank lines / blank padding give the same tree and encoding
+    variants = line_end_variants(lines)
+    chosen = variants if all_variants else [variants[0], variants[1 + run.rng.randrange(len(variants) - 1)]]
+    for vk, vtext in chosen:
+        stats['line_end_variants'] += 1
+        try:
+            mv = parse_message(vtext, validation_level=S.TOLERANT, find_groups=True)
+            vt, ve = impl_tree(mv), mv.to_er7()
+        except Exception as ex:  # noqa
+            vt, ve = 'EXC ' + repr(ex), None
+        if vt != got or ve != eg:
+            run.fail('line-ends-change-tree', 'the same segment lines written with other line ends (LF after CR, '
+                     'blank lines, blanks around a line) do not give the group tree of the CR-separated text',
+                     variant=vk, text=vtext, names=names, cr_tree=dump(got),
+                     found=(vt if isinstance(vt, str) else dump(vt)), same_encoding=(ve == eg), **ident)
     # (d) prescribed forest and validation
     try:
         rep = mg.validate(return_errors=True)
@@ -657,8 +683,13 @@ def message_cases(run, v, lib, count):
         if not names or names[0] != 'MSH':
             continue
         mname = m if rng.random() < .8 else rng.choice(['ZAB_Z01', 'XXX_Y01', m.lower(), m.split('_')[0]])
-        text = '\r'.join(msh_line(mname, v) if i == 0 else simple_line(rng, lib, n) for i, n in enumerate(names))
-        text += rng.choice(['', '\r'])
+        mlines = [msh_line(mname, v) if i == 0 else simple_line(rng, lib, n) for i, n in enumerate(names)]
+        # line ends: CR, CR LF, blank lines; blanks around a line (parse_segments strips the piece first)
+        if rng.random() < .3:
+            mlines = [l if i == 0 or rng.random() < .5 else rng.choice([' ', '\t', '\n ']) + l + rng.choice(['', ' ', ' \t'])
+                      for i, l in enumerate(mlines)]
+        text = rng.choice(['\r', '\r', '\r\n', '\r\n', '\r \r', '\r\r']).join(mlines)
+        text += rng.choice(['', '\r', '\r\n', '\r \r\n'])
         if rng.random() < .1:
             text = rng.choice([' ', '\n', '\r']) + text
         for lvl in (S.TOLERANT, S.STRICT):
@@ -838,7 +869,8 @@ def main(argv=None):
         'distinct_nontrivial': nontrivial,
         'rule': 'for %s message structures of every version: the instances required-only / all-children / '
                 'repeatable-groups-twice (depth 3) written as ER7 (MSH-9 names the structure; every segment line '
-                'carries its required fields), parsed under TOLERANT with group finding on (twice) and off; plus %d '
+                'carries its required fields), parsed under TOLERANT with group finding on (twice) and off, and again '
+                'with CR LF line ends and one of {trailing CR LF, blank lines, blank-padded lines} (same tree demanded); plus %d '
                 'random sequences per structure over its own, foreign and Z segment names (model fidelity and order '
                 'only); plus made-up structures (nested groups, repeated names, bounded maxima above 1) given to parse_segments directly; plus whole messages under both levels and both group modes with unknown, lower-case and Z '
                 'names for the message-level model.  non-trivial/distinct = distinct (version, structure, mode, forest) '
@@ -867,7 +899,7 @@ def replay(run):
     if v in VERSIONS and mode in MODES:
         lib = hl7apy.load_library(v)
         if m in lib.MESSAGES:
-            check_instance(run, v, lib, m, mode, stats)
+            check_instance(run, v, lib, m, mode, stats, all_variants=True)
     for f in run.failures:
         print('replayed failure:', f['kind'], {k: f['data'][k] for k in list(f['data'])[:8]})
     run.finish({'evaluations': 1, 'distinct_nontrivial': 1, 'rule': 'replay of one stored instance', 'samples': [inp]})
